@@ -39,9 +39,12 @@ func (r *rng) text() string {
 }
 
 // constants: mostly small, sometimes on the width boundaries of the pickle integer opcodes
+// boundaryReps: one representative of every width class of the pickle integer opcodes (and their neighbours)
+var boundaryReps = []int{0, 1, 255, 256, 257, 65535, 65536, 1<<31 - 1, 1 << 31, -1, -256}
+
 func (r *rng) constant() int {
-	if r.chance(12) {
-		return []int{255, 256, 257, 65535, 65536, 70000, 1 << 31}[r.below(7)]
+	if r.chance(14) {
+		return boundaryReps[r.below(9)] // the non-negative ones: defaults and free variables use -1 for "none"
 	}
 	return r.below(200)
 }
@@ -130,8 +133,16 @@ func genProj(r *rng, spare int) *Proj {
 		} else if r.chance(35) {
 			ng = 2 + r.below(2) // multi-output generators: some outputs (logs) are nobody's source
 		}
+		sub := ""
+		if r.chance(20) {
+			sub = "gen." + t.Name + "/" // outputs below a directory of their own (a fault op can replace that directory by a file)
+		}
 		for k := 0; k < ng; k++ {
-			t.Gens = append(t.Gens, pkgPath(pkg, fmt.Sprintf("%s.%d.out", t.Name, k)))
+			t.Gens = append(t.Gens, pkgPath(pkg, fmt.Sprintf("%s%s.%d.out", sub, t.Name, k)))
+		}
+		if r.chance(18) {
+			// sources=glob([...]) evaluated in the package directory; the root package's `**` patterns walk the whole project
+			t.Glob = []string{"**/*.txt", "*.txt", "d0/**"}[r.below(3)]
 		}
 		t.Always = r.chance(4)
 		switch r.below(10) {
@@ -785,6 +796,180 @@ func (g *gen) tplLinkOnly() {
 	g.add(g.build(pr[1].Label()))
 }
 
+// bystanders: k ∈ {1,2} processes that load the project fully without executing `t`: a build of something whose closure
+// does not contain it, a load only (`dawn list`), a collection
+func (g *gen) bystanders(t *Tgt) {
+	for i := 0; i < 1+g.r.below(2); i++ {
+		switch g.r.below(3) {
+		case 0:
+			var others []string
+			for _, o := range g.p.live() {
+				if !g.p.closure(o.Label())[t.Label()] {
+					others = append(others, o.Label())
+				}
+			}
+			if len(others) > 0 {
+				g.add(g.build(g.r.pick(others)))
+			} else {
+				g.add(Op{Kind: "load"})
+			}
+		case 1:
+			g.add(Op{Kind: "load", PreferIndex: g.r.chance(30)})
+		case 2:
+			g.add(Op{Kind: "gc", PreferIndex: g.r.chance(50)})
+		}
+	}
+}
+
+// tplCrashBystander: a body is interrupted (after an edit that is then reverted, under -B, or after one of its outputs was
+// deleted — reasons the record does not show), other processes load the project, then the target is built: the
+// persisted in-progress mark must have survived the loads in between
+func (g *gen) tplCrashBystander() {
+	var cands []*Tgt
+	for _, t := range g.p.live() {
+		if len(t.Gens) > 0 && !t.Always {
+			cands = append(cands, t)
+		}
+	}
+	if len(cands) == 0 {
+		g.uniformBuild()
+		return
+	}
+	t := cands[g.r.below(len(cands))]
+	root := g.rootOver(t)
+	g.add(g.build(root))
+	op := g.build(root)
+	op.CrashHook, op.CrashLabel = []string{"ba", "rs", "bw"}[g.r.below(3)], t.Label()
+	op.Note = "crash between the body and the record of " + t.Label() + ", then bystander loads"
+	old := t.Const
+	variant := g.r.below(3)
+	switch variant {
+	case 0:
+		g.edit(Edit{Kind: "const", Target: t.Label(), Val: old + 1})
+	case 1:
+		op.Always = true
+	case 2:
+		g.edit(Edit{Kind: "delgen", Path: t.Gens[g.r.below(len(t.Gens))]})
+	}
+	g.add(op)
+	g.bystanders(t)
+	if variant == 0 {
+		g.edit(Edit{Kind: "const", Target: t.Label(), Val: old})
+	}
+	g.add(g.build(root))
+}
+
+// sharedSource: two live targets, neither in the other's closure, that read the same plain source file
+func (g *gen) sharedSource() (*Tgt, *Tgt, string) {
+	live := g.p.live()
+	for _, i := range g.perm(len(live)) {
+		a := live[i]
+		if a.Always {
+			continue
+		}
+		for _, j := range g.perm(len(live)) {
+			b := live[j]
+			if a == b || b.Always || !g.independent(a, b) {
+				continue
+			}
+			for _, s := range g.p.srcsOf(a) {
+				if _, plain := g.p.Files[s]; plain && contains(g.p.srcsOf(b), s) && !g.p.isGenerated(s) && g.onlyReader(b, s) {
+					return a, b, s
+				}
+			}
+		}
+	}
+	return nil, nil, ""
+}
+
+// independent: the closures of a and b share no function target, and nothing in b's closure is `always`
+func (g *gen) independent(a, b *Tgt) bool {
+	ca, cb := g.p.closure(a.Label()), g.p.closure(b.Label())
+	for l := range ca {
+		if cb[l] {
+			return false
+		}
+	}
+	return len(alwaysDownstream(g.p, b.Label())) == 0
+}
+
+// onlyReader: within b's closure, only b itself reads the file s (directly, through a directory or through a glob)
+func (g *gen) onlyReader(b *Tgt, s string) bool {
+	for l := range g.p.closure(b.Label()) {
+		if l == b.Label() {
+			continue
+		}
+		for _, f := range g.p.sourceFilesOf(g.p.tgt(l)) {
+			if f == s {
+				return false
+			}
+		}
+	}
+	return true
+}
+
+func (g *gen) perm(n int) []int {
+	p := make([]int, n)
+	for i := range p {
+		p[i] = i
+	}
+	for i := n - 1; i > 0; i-- {
+		j := g.r.below(i + 1)
+		p[i], p[j] = p[j], p[i]
+	}
+	return p
+}
+
+// tplSharedSource (C02): a source shared by A and B. Build B; edit the source, build only A, revert the edit, build A
+// again (or: build A under -B); build B: B last ran against exactly this source, it must not run again.
+func (g *gen) tplSharedSource() {
+	a, b, s := g.sharedSource()
+	if a == nil {
+		// make one: give the last two independent targets a common source
+		live := g.p.live()
+		for i := len(live) - 1; i > 0 && a == nil; i-- {
+			for j := i - 1; j >= 0; j-- {
+				x, y := live[i], live[j]
+				if x.Always || y.Always || !g.independent(x, y) || !g.independent(y, x) {
+					continue
+				}
+				src := pkgPath(x.Pkg, "s0.txt")
+				if g.collected[src] {
+					continue
+				}
+				if _, ok := g.p.Files[src]; !ok {
+					continue
+				}
+				g.edit(Edit{Kind: "addsrc", Target: x.Label(), Path: src})
+				g.edit(Edit{Kind: "addsrc", Target: y.Label(), Path: src})
+				break
+			}
+			a, b, s = g.sharedSource()
+		}
+		if a == nil {
+			g.tplNoop()
+			return
+		}
+	}
+	g.add(g.build(b.Label()))
+	g.add(g.build(a.Label()))
+	if g.r.chance(60) {
+		orig := g.p.Files[s]
+		g.edit(Edit{Kind: "content", Path: s, Text: orig + "changed\n"})
+		g.add(g.build(a.Label()))
+		g.edit(Edit{Kind: "content", Path: s, Text: orig})
+		g.add(g.build(a.Label()))
+	} else {
+		op := g.build(a.Label())
+		op.Always = true
+		g.add(op)
+	}
+	op := g.build(b.Label())
+	op.ExpectSkip = []string{b.Label()}
+	op.Note = "the shared source " + s + " is what " + b.Label() + " last ran against"
+	g.add(op)
+}
+
 // tplDelGen: delete a generated file, build a dependent
 func (g *gen) tplDelGen() {
 	t, d := g.chainPick()
@@ -920,6 +1105,10 @@ func (g *gen) tplGC() {
 	if r.chance(50) {
 		g.uniformBuild()
 	}
+	if r.chance(40) {
+		// stray files and directories in .dawn/build/temp
+		g.edit(Edit{Kind: "junktemp", Name: fmt.Sprint(len(g.h.Ops)), Val: 1 + r.below(3)})
+	}
 	g.add(Op{Kind: "gc", PreferIndex: r.chance(60)})
 }
 
@@ -1013,10 +1202,12 @@ func genHistory(r *rng, prop string, nops int) *History {
 				g.tplLinkOnly()
 			case x < 30:
 				g.tplFailFix()
-			case x < 38:
+			case x < 36:
 				g.tplCrashAfterRecord()
-			case x < 46:
+			case x < 41:
 				g.tplCrashInBody()
+			case x < 46:
+				g.tplCrashBystander()
 			case x < 54:
 				g.tplDelGen()
 			case x < 62:
@@ -1030,8 +1221,10 @@ func genHistory(r *rng, prop string, nops int) *History {
 			}
 		case "C02":
 			switch {
-			case x < 45:
+			case x < 40:
 				g.tplNoop()
+			case x < 48:
+				g.tplSharedSource()
 			case x < 55:
 				g.tplPartial()
 			case x < 80:
@@ -1043,10 +1236,12 @@ func genHistory(r *rng, prop string, nops int) *History {
 			switch {
 			case x < 45:
 				g.tplFault()
-			case x < 55:
+			case x < 53:
 				g.tplCrashAfterRecord()
-			case x < 63:
+			case x < 58:
 				g.tplCrashInBody()
+			case x < 63:
+				g.tplCrashBystander()
 			case x < 70:
 				g.tplFailFix()
 			case x < 86:
@@ -1073,6 +1268,8 @@ func genHistory(r *rng, prop string, nops int) *History {
 				g.tplStaleIndexGC()
 			case x < 35:
 				g.tplGC()
+			case x < 40:
+				g.tplFault() // a real temporary left by an interrupted record save
 			case x < 45:
 				g.tplPartial()
 			case x < 72:
@@ -1175,6 +1372,11 @@ func enumCrashHistories(r *rng, nproj int, maxLabels int) []*History {
 				}
 			}
 		}
+		// index.json is rewritten in place by every full load: cut between its creation and its encoding
+		for _, h := range []string{"ic", "ie"} {
+			mk("first load, saveIndex "+h, crash("load", h, ""), rebuild)
+			mk("load over an existing index, saveIndex "+h, rebuild, crash("load", h, ""), rebuild)
+		}
 		// a target added to an existing project: its record is saved for the first time by the load
 		for _, t := range p.Tgts {
 			if !t.Removed {
@@ -1203,4 +1405,146 @@ func enumCrashHistories(r *rng, nproj int, maxLabels int) []*History {
 		}
 	}
 	return out
+}
+
+// ---------------------------------------------------------------- integer boundaries (C01)
+
+// boundaryHistories: one history per value position (a global, a constant) that walks an Euler circuit of the complete
+// graph on `boundaryReps`: every unordered pair {a, b} — (0,256) and (0,65536) included — occurs as consecutive values
+// "build with a; edit a → b; build", each build compared with a from-scratch build.
+func boundaryHistories() []*History {
+	// an Euler circuit of the complete graph on `reps` (odd number of vertices): Hierholzer
+	euler := func(reps []int) []int {
+		n := len(reps)
+		used := map[[2]int]bool{}
+		next := make([]int, n)
+		var circuit, stack []int
+		stack = append(stack, 0)
+		for len(stack) > 0 {
+			v := stack[len(stack)-1]
+			for next[v] < n && (next[v] == v || used[[2]int{min(v, next[v]), max(v, next[v])}]) {
+				next[v]++
+			}
+			if next[v] == n {
+				circuit = append(circuit, reps[v])
+				stack = stack[:len(stack)-1]
+				continue
+			}
+			u := next[v]
+			used[[2]int{min(v, u), max(v, u)}] = true
+			stack = append(stack, u)
+		}
+		return circuit
+	}
+	var nonneg []int
+	for _, v := range boundaryReps {
+		if v >= 0 {
+			nonneg = append(nonneg, v)
+		}
+	}
+	var out []*History
+	// the positions differ in what else an edit perturbs: a literal at the top of the build file (global) or inside the
+	// function (constant) also shifts constant-pool indices in the function's bytecode; the helper module's constant and
+	// the argument of a closure factory (written after the function) change the referenced VALUE only
+	for _, pos := range []string{"helperk", "free", "global", "const"} {
+		walk := euler(boundaryReps)
+		t := &Tgt{Name: "t", Gens: []string{"t.out"}, Dflt: -1, Free: -1, Const: 3}
+		switch pos {
+		case "global":
+			t.Global = "G0"
+		case "helperk":
+			t.Helper = true
+		case "free":
+			walk = euler(nonneg)
+			t.Free = walk[0]
+		}
+		p := &Proj{Pkgs: []string{""}, Globals: map[string]map[string]int{"": {"G0": 7, "G1": 2, "UNUSED": 3, "LA": 4}},
+			Noise: map[string]int{}, Blank: map[string]int{}, Files: map[string]string{}, Tgts: []*Tgt{t}, HelperK: 7, HelperV: 77}
+		h := &History{Template: "C01 integer boundaries, position " + pos, Proj: p}
+		for _, v := range walk {
+			var e *Edit
+			switch pos {
+			case "global":
+				e = &Edit{Kind: "global", Pkg: "", Name: "G0", Val: v}
+			case "const":
+				e = &Edit{Kind: "const", Target: "//:t", Val: v}
+			case "helperk":
+				e = &Edit{Kind: "helperk", Val: v}
+			case "free":
+				e = &Edit{Kind: "free", Target: "//:t", Val: v}
+			}
+			h.Ops = append(h.Ops, Op{Kind: "edit", Edit: e}, Op{Kind: "build", Target: "//:t"})
+		}
+		out = append(out, h)
+	}
+	return out
+}
+
+// ---------------------------------------------------------------- index.json cut at every length (C03)
+
+// truncIndexHistories: build, cut index.json after L bytes, then a process that loads preferring the index (judge-only)
+func truncIndexHistories(r *rng, lengths []int) []*History {
+	p := genProj(r, 0)
+	root := p.topRoot()
+	var out []*History
+	for _, l := range lengths {
+		out = append(out, &History{Template: fmt.Sprintf("C03 index.json cut after %d bytes", l), Proj: p.clone(), JudgeOnly: true, Ops: []Op{
+			{Kind: "build", Target: root},
+			{Kind: "edit", Edit: &Edit{Kind: "truncindex", Val: l}},
+			{Kind: "load", PreferIndex: true},
+			{Kind: "build", Target: root, ExpectNoExec: true},
+		}})
+	}
+	return out
+}
+
+// ---------------------------------------------------------------- faults during the up-to-date check (C13)
+
+// dryFaultHistory: the directory above a target's generated files is replaced by a regular file (Stat fails with
+// ENOTDIR, upToDate() returns an error), a dry run (which fails), the directory is restored, a real build: the dry run
+// must not have touched the build state, so nothing executes (judge-only: the model has no notion of the fault)
+func dryFaultHistory(r *rng) *History {
+	for try := 0; try < 20; try++ {
+		p := genProj(r, 0)
+		var cands []*Tgt
+		for _, t := range p.live() {
+			if len(t.Gens) > 0 && strings.Contains(t.Gens[0], "gen."+t.Name+"/") && !t.Always {
+				cands = append(cands, t)
+			}
+		}
+		if len(cands) == 0 {
+			continue
+		}
+		g := &gen{r: r, p: p.clone(), h: &History{Proj: p, Template: "C13 fault during the up-to-date check", JudgeOnly: true}, collected: map[string]bool{}}
+		for round := 0; round < 3; round++ {
+			t := cands[r.below(len(cands))]
+			root := g.rootOver(g.p.tgt(t.Label()))
+			if len(alwaysDownstream(g.p, root)) > 0 {
+				root = t.Label()
+				if len(alwaysDownstream(g.p, root)) > 0 {
+					continue
+				}
+			}
+			dir := pkgPath(t.Pkg, "gen."+t.Name)
+			g.add(g.build(root))
+			g.edit(Edit{Kind: "blockdir", Path: dir})
+			dry := g.build(root)
+			dry.Dry = true
+			if r.chance(30) {
+				dry.Always = true
+			}
+			g.add(dry)
+			g.edit(Edit{Kind: "unblockdir", Path: dir})
+			real := g.build(root)
+			real.ExpectNoExec = true
+			g.add(real)
+			if r.chance(50) {
+				g.uniformEdit()
+			}
+		}
+		if len(g.h.Ops) > 0 {
+			return g.h
+		}
+	}
+	return nil
 }
